@@ -425,7 +425,7 @@ func execCaseOpt(ops []string, doReplay bool) (out []string) {
 					return err
 				}()
 				if ferr != nil {
-					out = append(out, line+" => recerr 0 0")
+					out = append(out, line+" => fileerr 0 0")
 					continue
 				}
 			}
